@@ -11,6 +11,14 @@ import tempfile
 from pathlib import Path
 
 VERIF = Path(__file__).resolve().parents[1]
+# properties whose checks exercise the same code from another clause
+RELATED = {
+    "C01": ["C02", "C03", "C05", "C06", "C09"], "C02": ["C01", "C06"], "C03": ["C01", "C09", "C11"], "C04": ["C19", "C08"],
+    "C05": ["C01", "C18", "C15", "C07", "C06"], "C06": ["C02", "C01", "C05", "C14"], "C07": ["C01", "C05", "C06"],
+    "C08": ["C16", "C17", "C04", "C15", "C18"], "C09": ["C03", "C01", "C06"], "C10": ["C11", "C06"], "C11": ["C10", "C03"],
+    "C12": ["C13", "C14"], "C13": ["C12"], "C14": ["C12", "C06"], "C15": ["C05", "C20", "C08"], "C16": ["C08"], "C17": ["C08", "C18"],
+    "C18": ["C17", "C05"], "C19": ["C04"], "C20": ["C15"],
+}
 
 
 def main():
@@ -45,6 +53,22 @@ def main():
         ran[f"./check {pid} --tier {tier} (REDUINO_REPO=scratch worktree with the patch)"] = {
             "exit": c.returncode, "violations": viol[:3],
             "summary": (c.stdout.strip().splitlines() or [c.stderr[-300:]])[-1]}
+        # a change breaks behaviour, not a property id: when the check of the property the tester aimed at stays
+        # silent, the checks of the neighbouring properties (same code, other clause) are tried as well
+        also = {}
+        if not viol and "--no-related" not in sys.argv:
+            for q in RELATED.get(pid, []):
+                cq = subprocess.run([str(VERIF / "check"), q, "--tier", tier], capture_output=True, text=True, env=env, cwd=str(VERIF), timeout=7200)
+                vq = [l for l in cq.stdout.splitlines() if l.startswith("VIOLATION")]
+                also[q] = {"exit": cq.returncode, "violations": vq[:2]}
+                if vq:
+                    try:
+                        data = json.loads(Path(vq[0].split("replay=")[1].split()[0]).read_text())
+                        also[q]["first replay"] = {"what": data.get("what") or data.get("kind"), "case": json.dumps(data.get("case"), default=str)[:300]}
+                    except Exception:
+                        pass
+                    break
+            ran["checks of related properties (tried because the property's own check stayed silent)"] = also
         if viol:
             try:
                 rp = viol[0].split("replay=")[1].split()[0]
@@ -60,6 +84,7 @@ def main():
     meta["confirmed_independently"] = confirmed
     meta["what_i_ran"] = ran
     meta["detected"] = bool(viol)
+    meta["detected_by_related"] = next((q for q, v in (also or {}).items() if v.get("violations")), None)
     print(json.dumps(meta, indent=1)[:3000])
     if confirmed:
         out = VERIF / "seeded" / name
